@@ -159,8 +159,11 @@ struct Temporal {
   std::map<std::string, std::string> devs;
   Coeffs hdd, ssd;
   ld decay = 4;
+  int temporalFrom = 0; // temporal values are first asked for at this tick
 
   void sample(World& w, int tick) {
+    if (tick < temporalFrom)
+      return; // nothing obtained yet: the history starts at the first query
     for (auto& kv : w.live) {
       Cg& c = w.cgs[kv.second];
       Item& it = byInc[c.inc];
